@@ -28,6 +28,21 @@ def gen(rng, sc, n, capped=False):
                 add(mt, it2, 1)
                 break
     if not capped:
+        # long messages whose data fields carry kilobytes of non-ASCII bytes (UTF-8 text, binary): the CheckSum clause on long
+        # high-byte content (missed seed C02-4: carry lanes of the word-wise checksum folded too rarely; ASCII never shows it)
+        for style in ('ff', 'utf8', 'rand'):
+            mt, items = gm(rng, sc, p_opt=0.0, msgtype=b'D', with_data=False)
+            def blob(n):
+                if style == 'ff':
+                    return b'\xff' * n
+                if style == 'utf8':
+                    return ('\u65e5\u672c\u8a9e'.encode('utf-8') * (n // 9 + 1))[:n]
+                return bytes(rng.randrange(128, 256) for _ in range(n))
+            extra = []
+            for sec, ltag, dtag, n in (('h', 90, 91, 2040), ('h', 212, 213, 2040), ('b', 354, 355, 2040)):
+                extra += [cc.Item(sec, ltag, b'%d' % n), cc.Item(sec, dtag, blob(n))]
+            items = [i for i in items if i.tag not in (90, 91, 212, 213, 354, 355)] + extra
+            add(mt, items, 1)
         # messages filled by copy_legal from a message of another type: the position order is that of the TARGET type
         xl, xm = cc.gen_xcopy(rng, sc, max(30, n // 6))
         lines += xl
